@@ -337,10 +337,8 @@ WakeSteps(S, t) ==
                IF Canceled(X, o) THEN Silent([Ret(S1, t, i - 1, CancelResult(X, o)) EXCEPT !.th[t].w = NoWait])
                ELSE IF haveRes
                THEN Silent([HedgeCancelLosers(S1, t, i, h.chan[1].idx, h.chan[1].res) EXCEPT !.th[t].w = NoWait, !.th[t].hg[i].chan = <<>>])
-               ELSE \* CopyForHedge, OnHedge, start the next attempt, wait again
-                    \* CopyForHedge: copy, then attempts.Add(1), then hedges.Add(1) (two atomics: an observer can see the first alone)
-                    LET X1 == NewObj([X EXCEPT !.att = @ + 1], o, TRUE)   c == Len(X1.objs) IN
-                    Silent([SetX(S1, t, X1) EXCEPT !.th[t].mode = "hedgecnt", !.th[t].w = NoWait, !.th[t].hg[i].aobj = Append(h.aobj, c)])
+               ELSE \* not cancelled (checked under the mutex); the next hedge is prepared in further steps
+                    Silent([S1 EXCEPT !.th[t].mode = "hedgecopy", !.th[t].w = NoWait])
          IN (IF gotRes THEN After(S, TRUE) ELSE {}) \cup (IF timer THEN After(S, FALSE) ELSE {})
     [] OTHER -> {}
 
@@ -366,6 +364,11 @@ Steps(S, t) ==
          Silent([S EXCEPT !.th[t].mode = "onfull2", !.th[t].snap = XX(S, t).last[T.obj]])
     [] T.mode = "onfull2" ->      \* ... OnFull listener, then the failure result goes up
          One(Ret(S, t, T.i - 1, Failure(Leaf("ErrFull"))), Lab("OnFull", S, t, T.i, T.snap, NoX))
+    [] T.mode = "hedgecopy" ->
+         \* CopyForHedge: copy (under the mutex), then attempts.Add(1), then hedges.Add(1) (two atomics: an observer can see the first alone)
+         LET i == T.i   X == XX(S, t)   h == T.hg[i]
+             X1 == NewObj([X EXCEPT !.att = @ + 1], T.obj, TRUE)   c == Len(X1.objs) IN
+         Silent([SetX(S, t, X1) EXCEPT !.th[t].mode = "hedgecnt", !.th[t].hg[i].aobj = Append(h.aobj, c)])
     [] T.mode = "hedgecnt" -> Silent([SetX(S, t, [XX(S, t) EXCEPT !.hdg = @ + 1]) EXCEPT !.th[t].mode = "hedgeev"])
     [] T.mode = "hedgeev" ->      \* OnHedge listener, then `go attempt`, then wait for a result or the next hedge delay
          LET i == T.i   p == Stack[i]   h == T.hg[i]   X == XX(S, t)   c == h.aobj[Len(h.aobj)]
